@@ -5,13 +5,17 @@
  'clauses': 'ISO 7.24.2.1 memcpy, word-copy path (n >= 4*sizeof(long), src and dst long-aligned): same clauses as memcpy_bytes (C08_MEMCPY_* contract under C08_FWD_OK, frame, exact-size objects), all three loops. BOUNDED stand-in: the inductive step of the 4x-unrolled word loop does not go through any back end within the resource limits (pointers havocked by the loop contract make every one of the 8 word accesses a 6-way alias case split; 1x: 14 s, 2x: 60 s, 4x: > 1 h) - see NOTES.md',
  'unwind': 9,
  'params': {'LAY': [0, 1, 2], 'N': [32, 33, 39, 40, 47, 56, 63, 64, 71, 96, 103, 127]},
- 'defines': ['SO=8', 'DO=16', 'DELTA=8', 'TAIL=(8-N%8)', 'C08_MAXOFF=16'],
+ 'defines': ['SO=8', 'DO=16', 'DELTA=8', 'TAIL=(8-N%8)', 'C08_MAXOFF=16', 'C08_NMAX=127', 'C08_WITN=300'],
  'assumptions': ['pointer-to-integer casts follow cbmc\'s model (address = object base + offset, object bases long-aligned)'],
  'witness': {'unwind': 9},
 } @*/
 #include "c08_harness.h"
 #include "c08_string.h"
 size_t g_n0;
+#ifndef C08_NMAX
+#define C08_NMAX VC_MAXOBJ /* bounded units: their own bound, also in witness mode */
+#define C08_WITN 6
+#endif
 const char *g_fp; char g_fv; /* ghost frame byte: a byte of the destination object outside dst[0..n) */
 #include "compat/libc/string/memcpy.c"
 
@@ -28,9 +32,9 @@ void harness(void)
     WIT(size_t, tail);
     WIT(size_t, k);
     WIT(size_t, f);
-    WIT_ARR(char, cs, 6);
-    WIT_ARR(char, cd, 6);
-    __CPROVER_assume(n <= VC_MAXOBJ && tail <= 8 && so <= C08_MAXOFF && dof <= C08_MAXOFF && delta <= VC_MAXOBJ);
+    WIT_ARR(char, cs, C08_WITN);
+    WIT_ARR(char, cd, C08_WITN);
+    __CPROVER_assume(n <= C08_NMAX && tail <= 8 && so <= C08_MAXOFF && dof <= C08_MAXOFF && delta <= C08_NMAX);
 #ifdef N
     __CPROVER_assume(n == N);
 #endif
